@@ -285,6 +285,26 @@ func checkDNSCache(c *fw.Ctx) {
 	case strings.Contains(full, "!(builtin.len(*recv.entries) >= *recv.size)") || strings.Contains(full, "(builtin.len(*recv.entries) < *recv.size)") && !strings.Contains(full, "!(builtin.len(*recv.entries) < *recv.size)"):
 		c.Ok(rule, "an entry is inserted only after the eviction loop established len(entries) < size", c.P.Pos(fw.InstrPos(insert)), "")
 	case header == nil:
+		// the routine that inserts takes the mutex itself and never looks at the size, while the
+		// room test is made elsewhere under lookup: the two are in different critical sections
+		locksHere := false
+		for _, call := range fw.Calls(insFn) {
+			if n := fw.CalleeName(call); strings.HasSuffix(n, "Mutex).Lock") && call.Block().Dominates(insert.Block()) {
+				if _, isDefer := call.(*ssa.Defer); !isDefer {
+					locksHere = true
+				}
+			}
+		}
+		elsewhere := ""
+		for _, di := range fw.DeepInstrs(lookup, nil) {
+			if iff, ok := di.Instr.(*ssa.If); ok && iff.Parent() != insFn && roomTest(fw.Sig(iff.Cond)) {
+				elsewhere = c.P.Pos(fw.InstrPos(iff))
+			}
+		}
+		if locksHere && elsewhere != "" && insFn != lookup {
+			c.Fail(rule, "an entry is inserted only after the eviction loop established len(entries) < size", c.P.Pos(fw.InstrPos(insert)), fw.FuncName(insFn)+" locks the mutex, inserts and unlocks without a look at the size; room is made at "+elsewhere+" in another critical section: lookups that overlap in the resolver all insert, and the cache exceeds its size")
+			break
+		}
 		c.Undecided(rule, "an entry is inserted only after the eviction loop established len(entries) < size", "no test of len(entries) against size found in "+fw.FuncName(insFn))
 	default:
 		c.Fail(rule, "an entry is inserted only after the eviction loop established len(entries) < size", c.P.Pos(fw.InstrPos(insert)), "insertion under ["+full+"]: the room test does not dominate the insertion, so the cache can exceed its size")
